@@ -246,7 +246,8 @@ Lemma em_assign_inv s w u1 u2 e1 e2 l :
   inv s' w u1 u2 /\ heap s' = heap s /\ wheap s' = wheap s /\ next s' = next s
   /\ fget w u1 (file s') = Some (read s l)
   /\ (forall w0 u0, (w0 <> w \/ (u0 <> u1 /\ u0 <> u2)) -> get_ent w0 u0 (ents s') = get_ent w0 u0 (ents s)
-                                                        /\ fget w0 u0 (file s') = fget w0 u0 (file s)).
+                                                        /\ fget w0 u0 (file s') = fget w0 u0 (file s))
+  /\ (forall x, (get_ent w u1 (ents s') = Some x \/ get_ent w u2 (ents s') = Some x) -> md x = Some l).
 Proof.
   intros G1 G2 Hne Hrol Hf1 Hf2 Hptr Hk1 Hk2 Hc1 Hc2.
   destruct (get_ent_some _ _ _ _ G1) as [W1 U1]. destruct (get_ent_some _ _ _ _ G2) as [W2 U2].
@@ -283,7 +284,8 @@ Proof.
     rewrite <- A1, <- A2. apply get_put_same. }
   assert (G2'' : get_ent w u2 (ents s') = Some e2a).
   { rewrite Hents. replace w with (wsp e2a) by exact W2. replace u2 with (uid e2a) by exact U2. apply get_put_same. }
-  split; [|split; [exact Hheap | split; [exact Hwheap | split; [exact Hnext | split]]]].
+  split; [|split; [exact Hheap | split; [exact Hwheap | split; [exact Hnext | split; [|split]]]]].
+  4: { intros x [Hx|Hx]; [rewrite G1' in Hx | rewrite G2'' in Hx]; inversion Hx; subst x; [exact A5 | reflexivity]. }
   - exists e1b, e2a, (read s l).
     split; [exact G1'|]. split; [exact G2''|]. split; [exact Hne|].
     split; [simpl; rewrite A3; exact Hrol|]. split; [rewrite A4; exact Hf1|]. split; [exact Hf2|].
@@ -328,7 +330,9 @@ Lemma em_edit_inv s w u1 u2 e1 e2 fd0 k v :
   /\ (next s <= next s')%N
   /\ (forall w0 u0, (w0 <> w \/ (u0 <> u1 /\ u0 <> u2)) -> get_ent w0 u0 (ents s') = get_ent w0 u0 (ents s)
                                                         /\ fget w0 u0 (file s') = fget w0 u0 (file s))
-  /\ (forall l0, ptr_ok s l0 -> (forall l, md e1 = Some l -> l0 <> l) -> read s' l0 = read s l0 /\ ptr_ok s' l0).
+  /\ (forall l0, ptr_ok s l0 -> (forall l, md e1 = Some l -> l0 <> l) -> read s' l0 = read s l0 /\ ptr_ok s' l0)
+  /\ (forall l0, md e1 = Some l0 ->
+        forall x, (get_ent w u1 (ents s') = Some x \/ get_ent w u2 (ents s') = Some x) -> md x = Some l0).
 Proof.
   intros G1 G2 Hne Hrol Hf1 Hf2 Hsees Hptr Hown Hk Hother Hv Hc1 Hc2.
   destruct (get_ent_some _ _ _ _ G1) as [W1 U1]. destruct (get_ent_some _ _ _ _ G2) as [W2 U2].
@@ -358,8 +362,9 @@ Proof.
     - subst k v. rewrite dget_dset_same. reflexivity.
     - rewrite dget_dset_other by (intros E; apply Ek; symmetry; exact E). rewrite <- expand_dget.
       change (dget (key_of (rol e2)) (read s1 l) = Some (FU u2)). rewrite A2. exact Hd. }
-  destruct (em_assign_inv s2 w u1 u2 e1' e2 l G1' G2' Hne Hrol Hf1 Hf2 Hptr2 Hn1 Hn2 Hc1 Hc2) as (B1 & B2 & B3 & B4 & B5 & B6).
-  split; [exact B1|]. split; [|split; [|split]].
+  destruct (em_assign_inv s2 w u1 u2 e1' e2 l G1' G2' Hne Hrol Hf1 Hf2 Hptr2 Hn1 Hn2 Hc1 Hc2) as (B1 & B2 & B3 & B4 & B5 & B6 & B7).
+  split; [exact B1|]. split; [|split; [|split; [|split]]].
+  5: { intros l0 El0 x Hx. assert (l = l0) by (unfold em_md in Em; rewrite El0 in Em; inversion Em; reflexivity). subst l0. apply (B7 x Hx). }
   - exists (read s2 l). split; [exact B5|]. split.
     + rewrite Hread2, expand_dget, dget_dset_same. rewrite B3. reflexivity.
     + intros j Hj. rewrite Hread2, expand_dget, dget_dset_other by exact Hj. rewrite <- expand_dget.
@@ -396,7 +401,9 @@ Lemma em_link_inv s w u1 u2 e1 e2 fd0 :
   inv s' w u1 u2 /\ (next s <= next s')%N
   /\ (forall w0 u0, (w0 <> w \/ (u0 <> u1 /\ u0 <> u2)) -> get_ent w0 u0 (ents s') = get_ent w0 u0 (ents s)
                                                         /\ fget w0 u0 (file s') = fget w0 u0 (file s))
-  /\ (forall l0, ptr_ok s l0 -> (forall l, md e1 = Some l -> l0 <> l) -> read s' l0 = read s l0 /\ ptr_ok s' l0).
+  /\ (forall l0, ptr_ok s l0 -> (forall l, md e1 = Some l -> l0 <> l) -> read s' l0 = read s l0 /\ ptr_ok s' l0)
+  /\ (forall l0, md e1 = Some l0 ->
+        forall x, (get_ent w u1 (ents s') = Some x \/ get_ent w u2 (ents s') = Some x) -> md x = Some l0).
 Proof.
   intros G1 G2 Hne Hrol Hf1 Hf2 Hsees Hptr Hown Hc2.
   destruct (get_ent_some _ _ _ _ G1) as [W1 U1]. destruct (get_ent_some _ _ _ _ G2) as [W2 U2].
@@ -405,7 +412,7 @@ Proof.
   { unfold s1. simpl. rewrite <- W1, <- U1. apply (get_put_same e1c). }
   assert (G2' : get_ent w u2 (ents s1) = Some e2).
   { unfold s1. simpl. rewrite <- G2. apply (get_put_other e1c). right. simpl. rewrite U1. exact Hne. }
-  destruct (em_edit_inv s1 w u1 u2 e1c e2 fd0 (key_of (rol e2)) (VU (uid e2)) G1' G2' Hne Hrol Hf1 Hf2) as (B1 & B2 & B3 & B4 & B5); try assumption.
+  destruct (em_edit_inv s1 w u1 u2 e1c e2 fd0 (key_of (rol e2)) (VU (uid e2)) G1' G2' Hne Hrol Hf1 Hf2) as (B1 & B2 & B3 & B4 & B5 & B6); try assumption.
   - intros E. simpl in E. rewrite Hrol in E. apply (key_other (rol e1)). exact E.
   - left. split; [reflexivity | rewrite U2; reflexivity].
   - exact I.
@@ -414,7 +421,7 @@ Proof.
     + intros w0 u0 Hoth. destruct (B4 w0 u0 Hoth) as [C1 C2]. split; [|exact C2]. rewrite C1. unfold s1. simpl.
       apply (get_put_other e1c). simpl. rewrite W1, U1.
       destruct Hoth as [H|[H _]]; [left; intros E; apply H; symmetry; exact E | right; intros E; apply H; symmetry; exact E].
-    + intros l0 Hl0 Hd. apply (B5 l0 Hl0 Hd).
+    + split; [intros l0 Hl0 Hd; apply (B5 l0 Hl0 Hd) | exact B6].
 Qed.
 
 Theorem link_symmetric s ea eb :
@@ -1001,13 +1008,22 @@ Qed.
 Lemma sym_key {A B} (a a' : A) (b b' : B) : (a <> a' \/ b <> b') -> (a' <> a \/ b' <> b).
 Proof. intros [H|H]; [left | right]; intros E; apply H; symmetry; exact E. Qed.
 
+Definition cells_apart (s : st) (w : bool) (ua ub : N) (tw : bool) (uc uc2 : N) : Prop :=
+  forall x y l, (get_ent w ua (ents s) = Some x \/ get_ent w ub (ents s) = Some x) ->
+                (get_ent tw uc (ents s) = Some y \/ get_ent tw uc2 (ents s) = Some y) ->
+                md x = Some l -> md y = Some l -> False.
+
+Definition keys_apart (w : bool) (ua ub : N) (tw : bool) (uc uc2 : N) : Prop :=
+  w <> tw \/ (ua <> uc /\ ua <> uc2 /\ ub <> uc /\ ub <> uc2).
+
 Theorem copy_links_copies s w ua ub ea tw mask s' uc :
   wf s -> inv s w ua ub -> get_ent w ua (ents s) = Some ea -> is_large (fam ea) = false ->
   (forall fd, sees s ea = Some fd -> link_keys_hold_uids fd) ->
   em_copy s ea tw mask = Ok (s', uc) ->
   exists uc2,
     inv s' tw uc uc2 /\ inv s' w ua ub /\ wf s'
-    /\ get_ent tw uc (ents s) = None /\ get_ent tw uc2 (ents s) = None /\ uc <> uc2.
+    /\ get_ent tw uc (ents s) = None /\ get_ent tw uc2 (ents s) = None /\ uc <> uc2
+    /\ keys_apart w ua ub tw uc uc2 /\ cells_apart s' w ua ub tw uc uc2.
 Proof.
   intros Hwf Hinv Ga Hlarge Hkeys Hcopy.
   destruct (inv_sees _ _ _ _ Hinv) as (e1 & eb & fd & H1 & H2 & H3 & H4 & H5 & H6 & H7 & H8 & H9 & H10 & H11 & H12).
@@ -1133,7 +1149,7 @@ Proof.
   destruct (alone_sees s7 c lc A7) as (Q1 & Q2 & Q3).
   destruct T1 as (G2c & M2c & C2c & F2c & P2c & K12c & K22c).
   destruct A7 as (G7c & M7c & C7c & F7c & P7c & K17c & K27c).
-  destruct (em_link_inv s7 tw (uid c) (uid c2) c c2 (read s7 lc)) as (L1 & L2 & L3 & L4); try assumption.
+  destruct (em_link_inv s7 tw (uid c) (uid c2) c c2 (read s7 lc)) as (L1 & L2 & L3 & L4 & L5); try assumption.
   - rewrite <- S2. exact G7c.
   - rewrite <- T2. exact G2c.
   - rewrite T3, S3. exact H4.
@@ -1150,7 +1166,18 @@ Proof.
     { destruct (Bool.bool_dec w tw) as [Ew|Ew]; [|left; exact Ew]. right. split.
       - intros E. rewrite Ew, E in H2. rewrite S5 in H2. discriminate.
       - intros E. rewrite Ew, E in Gb5. rewrite T5 in Gb5. discriminate. }
-    split; [|split; [|split; [exact S5 | split; [|exact Hcc2]]]].
+    assert (Hsrc_md : forall x l0, (get_ent w ua (ents s7) = Some x \/ get_ent w ub (ents s7) = Some x) -> md x = Some l0 -> l0 <> lc).
+    { intros x l0 [Hx|Hx] Emd.
+      - rewrite Ga7 in Hx. inversion Hx; subst x.
+        destruct (P11 l eq_refl) as (y & Gy & My). rewrite Ga5 in Gy. inversion Gy; subst y. rewrite My in Emd. inversion Emd; subst l0. exact Hllc.
+      - rewrite Gb7 in Hx. inversion Hx; subst x. apply Hpb in Emd. destruct Emd as [E _]. intros E2. subst l0. lia. }
+    split; [|split; [|split; [exact S5 | split; [|split; [exact Hcc2|split]]]]].
+    4: { unfold keys_apart. destruct Ka7 as [E|[A1 A2]]; [left; exact E|]. destruct Kb7 as [E|[B1 B2]]; [left; exact E|]. right. repeat split; assumption. }
+    4: { unfold cells_apart. intros x y l0 Hx Hy Mx My.
+         assert (Hx7 : get_ent w ua (ents s7) = Some x \/ get_ent w ub (ents s7) = Some x).
+         { destruct Hx as [Hx|Hx]; [left; rewrite <- (proj1 (L3 w ua Ka7)) | right; rewrite <- (proj1 (L3 w ub Kb7))]; exact Hx. }
+         assert (Hy' : md y = Some lc) by (apply (L5 lc M7c y Hy)).
+         rewrite My in Hy'. inversion Hy'; subst l0. apply (Hsrc_md x lc Hx7 Mx). reflexivity. }
     + apply (inv_frame s7 _ w ua ub Hinv7); try (apply L3; assumption).
       intros l0 Hl0 _ (e & He & Emd). apply (L4 l0 Hl0). intros l1 El1. rewrite M7c in El1. inversion El1; subst l1.
       (* the dicts of the source pair are older than the dict of the copy, or were loaded after it *)
@@ -1204,8 +1231,8 @@ Theorem copy_of_copy s w ua ub ea tw mask s1 uc c1 tw2 mask2 s2 ucc :
     /\ (exists x y, get_ent w ua (ents s1) = Some x /\ get_ent w ub (ents s1) = Some y).
 Proof.
   intros Hwf Hinv Ga Hl Hk Hc1 Gc1 Hl1 Hk1 Hc2.
-  destruct (copy_links_copies s w ua ub ea tw mask s1 uc Hwf Hinv Ga Hl Hk Hc1) as (uc2 & I1 & I2 & W1 & N1 & N2 & D1).
-  destruct (copy_links_copies s1 tw uc uc2 c1 tw2 mask2 s2 ucc W1 I1 Gc1 Hl1 Hk1 Hc2) as (ucc2 & J1 & J2 & W2 & M1 & M2 & D2).
+  destruct (copy_links_copies s w ua ub ea tw mask s1 uc Hwf Hinv Ga Hl Hk Hc1) as (uc2 & I1 & I2 & W1 & N1 & N2 & D1 & _ & _).
+  destruct (copy_links_copies s1 tw uc uc2 c1 tw2 mask2 s2 ucc W1 I1 Gc1 Hl1 Hk1 Hc2) as (ucc2 & J1 & J2 & W2 & M1 & M2 & D2 & _ & _).
   exists uc2, ucc2. split; [exact J1|]. split; [exact J2|]. split; [exact M1|]. split; [exact M2|]. split; [exact D2|].
   split.
   - destruct I1 as (x & y & _ & X & Y & _). exists x, y. split; assumption.
@@ -1214,14 +1241,6 @@ Qed.
 
 (* ------------------------------------------------------------------ edits of one pair and the other pairs *)
 (* scalar edits, links and re-opens applied to one pair leave another pair consistent when the two pairs hold distinct dict cells *)
-Definition cells_apart (s : st) (w : bool) (ua ub : N) (tw : bool) (uc uc2 : N) : Prop :=
-  forall x y l, (get_ent w ua (ents s) = Some x \/ get_ent w ub (ents s) = Some x) ->
-                (get_ent tw uc (ents s) = Some y \/ get_ent tw uc2 (ents s) = Some y) ->
-                md x = Some l -> md y = Some l -> False.
-
-Definition keys_apart (w : bool) (ua ub : N) (tw : bool) (uc uc2 : N) : Prop :=
-  w <> tw \/ (ua <> uc /\ ua <> uc2 /\ ub <> uc /\ ub <> uc2).
-
 Lemma edit_other_pair s w ua ub tw uc uc2 ec k z :
   inv s w ua ub -> inv s tw uc uc2 -> keys_apart w ua ub tw uc uc2 -> cells_apart s w ua ub tw uc uc2 ->
   get_ent tw uc (ents s) = Some ec -> k <> KA -> k <> KB ->
@@ -1231,7 +1250,7 @@ Proof.
   destruct (inv_sees _ _ _ _ Hcp) as (e1 & e2 & fd & H1 & H2 & H3 & H4 & H5 & H6 & H7 & H8 & H9 & H10 & H11 & H12).
   assert (e1 = ec) by congruence. subst e1.
   assert (Hk : forall r, k <> key_of r) by (intros [|]; assumption).
-  destruct (em_edit_inv s tw uc uc2 ec e2 fd k (VZ z) H1 H2 H3 H4 H5 H6 H7 H8 H9 (Hk _)) as (B1 & B2 & B3 & B4 & B5); try assumption.
+  destruct (em_edit_inv s tw uc uc2 ec e2 fd k (VZ z) H1 H2 H3 H4 H5 H6 H7 H8 H9 (Hk _)) as (B1 & B2 & B3 & B4 & B5 & B6x); try assumption.
   - right. split; [apply Hk | exact H10].
   - exact I.
   - assert (Ka : tw <> w \/ (ua <> uc /\ ua <> uc2)) by (destruct Hkeys as [E|(A & B & _)]; [left; intros X; apply E; symmetry; exact X | right; split; assumption]).
@@ -1241,6 +1260,19 @@ Proof.
     apply (inv_frame s _ w ua ub Hsrc); try (apply B4; assumption).
     intros l0 Hl0 _ (x & Hx & Emd). apply (B5 l0 Hl0). intros l1 El1 E. subst l1.
     apply (Hcells x ec l0 Hx (or_introl Gc) Emd El1).
+Qed.
+
+(* the side conditions of [edit_other_pair] are what a copy establishes *)
+Theorem copy_then_edit_isolated s w ua ub ea tw mask s' uc ec k z :
+  wf s -> inv s w ua ub -> get_ent w ua (ents s) = Some ea -> is_large (fam ea) = false ->
+  (forall fd, sees s ea = Some fd -> link_keys_hold_uids fd) ->
+  em_copy s ea tw mask = Ok (s', uc) ->
+  get_ent tw uc (ents s') = Some ec -> k <> KA -> k <> KB ->
+  inv (em_edit s' ec k (VZ z)) w ua ub.
+Proof.
+  intros Hwf Hinv Ga Hl Hk Hc Gc Hka Hkb.
+  destruct (copy_links_copies s w ua ub ea tw mask s' uc Hwf Hinv Ga Hl Hk Hc) as (uc2 & I1 & I2 & _ & _ & _ & _ & K & Cl).
+  apply (edit_other_pair s' w ua ub tw uc uc2 ec k z I2 I1 K Cl Gc Hka Hkb).
 Qed.
 
 (* ------------------------------------------------------------------ isolation of a copy from its source: refuted *)
